@@ -77,3 +77,85 @@ lens!(message_from_bytes,
   c09_message_from_bytes_0 = 0, c09_message_from_bytes_3 = 3, c09_message_from_bytes_4 = 4,
   c09_message_from_bytes_8 = 8, c09_message_from_bytes_11 = 11, c09_message_from_bytes_12 = 12,
   c09_message_from_bytes_115 = 115, c09_message_from_bytes_116 = 116, c09_message_from_bytes_120 = 120);
+
+// ---- share recovery on decoded (attacker-chosen) shares --------------------------
+macro_rules! recover_stubs {
+    ($(#[$m:meta])* fn $name:ident() $body:block) => {
+        #[kani::proof]
+        #[kani::stub(keccak::f1600, f1600_any)]
+        #[kani::stub(<byteorder::LittleEndian as byteorder::ByteOrder>::read_u64_into, read_u64_into_25)]
+        #[kani::stub(<byteorder::LittleEndian as byteorder::ByteOrder>::write_u64_into, write_u64_into_25)]
+        #[kani::stub(zeroize::optimization_barrier, barrier_noop)]
+        #[kani::stub(<strobe_rs::Strobe as core::ops::Drop>::drop, strobe_drop_noop)]
+        #[kani::stub(<sta_rs::Share as core::ops::Drop>::drop, drop_noop_star_share)]
+        #[kani::stub(<adss::AccessStructure as core::ops::Drop>::drop, drop_noop_access)]
+        #[kani::stub(<adss::Commune as core::ops::Drop>::drop, drop_noop_commune)]
+        #[kani::stub(<star_sharks::Fp as ff::PrimeField>::from_repr, fp_from_repr_spec)]
+        #[kani::stub(<star_sharks::Fp as ff::PrimeField>::to_repr, fp_to_repr_spec)]
+        #[kani::stub(<star_sharks::Fp as core::ops::MulAssign<&star_sharks::Fp>>::mul_assign, fp_mul_assign_laws)]
+        #[kani::stub(<star_sharks::Fp as ff::Field>::invert, fp_invert_laws)]
+        $(#[$m])*
+        fn $name() $body
+    };
+}
+
+/// one or two arbitrary byte strings that the real decoder accepts, handed to
+/// `share_recover` (thresholds, points, values, ciphertexts, MAC all attacker-chosen)
+fn recover_decoded<const N1: usize, const N2: usize>() {
+    let b1: [u8; N1] = kani::any();
+    let s1 = sta_rs::Share::from_bytes(&b1[..]);
+    if N2 == 0 {
+        if let Some(a) = s1 {
+            let v = [a];
+            let r = sta_rs::share_recover(&v);
+            kani::cover!(r.is_err(), "rejected");
+            core::mem::forget(r);
+            core::mem::forget(v);
+        }
+    } else {
+        let b2: [u8; N2] = kani::any();
+        let s2 = sta_rs::Share::from_bytes(&b2[..]);
+        if let (Some(a), Some(b)) = (s1, s2) {
+            let v = [a, b];
+            let r = sta_rs::share_recover(&v);
+            kani::cover!(r.is_err(), "rejected");
+            core::mem::forget(r);
+            core::mem::forget(v);
+        }
+    }
+}
+recover_stubs! { #[kani::unwind(5)] fn c09_recover_104() { recover_decoded::<104, 0>() } }
+recover_stubs! { #[kani::unwind(5)] fn c09_recover_128() { recover_decoded::<128, 0>() } }
+recover_stubs! { #[kani::unwind(5)] fn c09_recover_128_128() { recover_decoded::<128, 128>() } }
+recover_stubs! { #[kani::unwind(5)] fn c09_recover_104_128() { recover_decoded::<104, 128>() } }
+
+/// Shamir recovery on arbitrary in-memory shares (n <= 3, equal or unequal lengths, any
+/// threshold, duplicate points, zero points)
+fn sharks_recover_any<const N: usize>() {
+    let t: u32 = kani::any();
+    let mut v: Vec<star_sharks::Share> = Vec::with_capacity(N);
+    let mut i = 0;
+    while i < N {
+        let x: [u64; 3] = kani::any();
+        kani::assume(limbs_lt_p(&x));
+        let ny: u8 = kani::any();
+        kani::assume(ny <= 1);
+        let mut y = Vec::new();
+        if ny == 1 {
+            let yl: [u64; 3] = kani::any();
+            kani::assume(limbs_lt_p(&yl));
+            y.push(fp_from_limbs(yl));
+        }
+        v.push(star_sharks::Share { x: fp_from_limbs(x), y });
+        i += 1;
+    }
+    let sh = star_sharks::Sharks(t);
+    let r = sh.recover(&v);
+    kani::cover!(r.is_ok(), "recovered");
+    kani::cover!(r.is_err(), "refused");
+    core::mem::forget(r);
+    core::mem::forget(v);
+}
+recover_stubs! { #[kani::unwind(6)] fn c09_sharks_recover_n0() { sharks_recover_any::<0>() } }
+recover_stubs! { #[kani::unwind(6)] fn c09_sharks_recover_n2() { sharks_recover_any::<2>() } }
+recover_stubs! { #[kani::unwind(6)] fn c09_sharks_recover_n3() { sharks_recover_any::<3>() } }
